@@ -384,8 +384,14 @@ class D06(Extra):
     def model_lines(self, c):
         t0, tmax, tmin = domain(c['f'], c['sigs'])
         io = ' '.join(str(b) for b in c['io'])
-        return ['(rhoz (iaspec %s (%s)) %s (%s) %d %d)' % (c['sem'], io, fml.to_sx(c['f']), sigs_sx(c['sigs']), t0, max(tmax, t0) + 8),
-                '(devalpk (ia %s (%s)) %s (%s))' % (c['sem'], io, fml.to_sx(c['f']), sigs_sx(c['sigs']))]
+        lines = ['(rhoz (iaspec %s (%s)) %s (%s) %d %d)' % (c['sem'], io, fml.to_sx(c['f']), sigs_sx(c['sigs']), t0, max(tmax, t0) + 8),
+                 '(devalpk (ia %s (%s)) %s (%s))' % (c['sem'], io, fml.to_sx(c['f']), sigs_sx(c['sigs']))]
+        if self.online(c):
+            # the model of the whole online monitor with the predicate kinds of the IA visitors (DenseOnlineMon.pred_update_ia): one update with everything
+            used = fml.fvars(c['f'])
+            env = '(' + ' '.join(dense.sig_sx(c['sigs'][i] if i in used else []) for i in range(len(c['sigs']))) + ')'
+            lines.append('(onlmon (ia %s (%s)) %s (%s))' % (c['sem'], io, fml.to_sx(c['f']), env))
+        return lines
 
     def impl_cases(self, c):
         io = {fml.VARS[i]: ('input' if c['io'][i] else 'output') for i in range(c['nv'])}
@@ -415,6 +421,14 @@ class D06(Extra):
                 if k == 1 and self.const_binary(c['f']):
                     continue                 # KF-C05-const-binary
                 return 'violation', dict(det, monitor=mon, observed=v)
+            if k == 1 and len(mlines) > 2 and mlines[2].startswith('ONLMON') and mlines[2] != 'ONLMON BAD':
+                exp = [[(x.rsplit(':', 1)[0] if x.rsplit(':', 1)[0] == 'inf' else int(x.rsplit(':', 1)[0])), fml.parse_val(x.rsplit(':', 1)[1])] for x in mlines[2][len('ONLMON'):].split()]
+                got = [[('inf' if t == math.inf else t), x] for t, x in v]
+                same = len(exp) == len(got) and all((a[0] == b[0] or (a[0] != 'inf' and b[0] != 'inf' and float(a[0]) == float(b[0]))) and float(a[1]) == float(b[1]) for a, b in zip(exp, got))
+                if not same:
+                    return 'violation', dict(det, monitor=mon, kind='list', expected={'source': 'DenseOnlineMon.mon_run with the IA predicate kinds: the list update() returns', 'samples_ticks': [[a, fml.val_sx(b)] for a, b in exp]},
+                                             observed={'samples_ticks': got})
+                self.ia_online_lists = getattr(self, 'ia_online_lists', 0) + 1
             if not v:
                 if k == 1:
                     continue             # the online monitor may not have settled anything yet (C05 covers what it emits)
@@ -949,6 +963,13 @@ def extend(cls, extra):
 
         def describe(self, c):
             return extra.describe(c) if c.get('dense') else cls.describe(self, c)
+
+        def extra_evidence(self):
+            ev = dict(cls.extra_evidence(self))
+            for k in ('ia_lists', 'ia_online_lists'):
+                if getattr(extra, k, None):
+                    ev['dense_' + k + '_compared_with_the_visitor_models'] = getattr(extra, k)
+            return ev
 
     Ext.__name__ = cls.__name__
     return Ext
